@@ -107,6 +107,7 @@ type GMEProg struct {
 	Iter     int    `json:"iterations"`
 	Updates  int    `json:"updates"`
 	Outages  int    `json:"outages"`
+	Updaters int    `json:"updaters,omitempty"` // goroutines calling UpdateMultiEndpoints concurrently (default 1)
 	Seed     uint64 `json:"seed"`
 	Pert     int    `json:"perturbation"`
 	Failure  string `json:"failure,omitempty"`
@@ -169,33 +170,39 @@ func RunGME(p *GMEProg) string {
 		}(g)
 	}
 	var ug sync.WaitGroup
-	ug.Add(1)
-	go func() {
-		defer ug.Done()
-		defer func() {
-			if r := recover(); r != nil {
-				bad.Store("panic", fmt.Sprint(r))
+	nu := p.Updaters
+	if nu < 1 {
+		nu = 1
+	}
+	for u := 0; u < nu; u++ {
+		ug.Add(1)
+		go func(u int) {
+			defer ug.Done()
+			defer func() {
+				if r := recover(); r != nil {
+					bad.Store("panic", fmt.Sprint(r))
+				}
+			}()
+			r := mix(p.Seed*31 + uint64(u)*977)
+			for i := 0; i < p.Updates+p.Outages; i++ {
+				select {
+				case <-stop:
+					return
+				default:
+				}
+				r = mix(r)
+				if (i%2 == 0 && i/2 < p.Updates) || u > 0 {
+					gme.UpdateMultiEndpoints(mk(r))
+				} else {
+					e := eps[int(r>>7)%len(eps)]
+					gmesim.SetUp(e, false)
+					time.Sleep(300 * time.Microsecond)
+					gmesim.SetUp(e, true)
+				}
+				time.Sleep(time.Duration(50+r%200) * time.Microsecond)
 			}
-		}()
-		r := mix(p.Seed * 31)
-		for i := 0; i < p.Updates+p.Outages; i++ {
-			select {
-			case <-stop:
-				return
-			default:
-			}
-			r = mix(r)
-			if i%2 == 0 && i/2 < p.Updates {
-				gme.UpdateMultiEndpoints(mk(r))
-			} else {
-				e := eps[int(r>>7)%len(eps)]
-				gmesim.SetUp(e, false)
-				time.Sleep(300 * time.Microsecond)
-				gmesim.SetUp(e, true)
-			}
-			time.Sleep(200 * time.Microsecond)
-		}
-	}()
+		}(u)
+	}
 	fin := make(chan struct{})
 	go func() { wg.Wait(); close(stop); ug.Wait(); close(fin) }()
 	select {
